@@ -263,6 +263,36 @@ func (encExec) Do(o *Out, f []string) string {
 			o.ObsHist["lpmenc-panic"]++
 			return "panic"
 		}
+		// the same value handed over as a sub-slice of a larger buffer (spare capacity): the
+		// encoder must neither write to its input nor return a key that shares memory with it
+		if n := int((l + 7) / 8); n <= len(d) {
+			buf := make([]byte, n+6)
+			copy(buf, d[:n])
+			for i := n; i < len(buf); i++ {
+				buf[i] = 0xee
+			}
+			before := append([]byte{}, buf...)
+			var key2 []byte
+			func() {
+				defer func() { _ = recover() }()
+				key2 = lpm.EncodeLPMKey(buf[:n], l)
+			}()
+			if key2 != nil {
+				if !bytes.Equal(buf, before) {
+					o.Fail("C18", "lpm-encoder-wrote-to-input", nil, fmt.Sprintf("EncodeLPMKey(%s,%d) changed the caller's buffer from %s to %s", hx(d[:n]), l, hx(before), hx(buf)))
+				}
+				if !bytes.Equal(key2, key) {
+					o.Fail("C18", "lpm-equal-values-different-keys", nil, fmt.Sprintf("EncodeLPMKey of the same %d-bit value gives %s and %s", l, hx(key), hx(key2)))
+				}
+				snap := append([]byte{}, key2...)
+				for i := range buf {
+					buf[i] ^= 0xff
+				}
+				if !bytes.Equal(key2, snap) {
+					o.Fail("C18", "lpm-key-aliases-input", nil, fmt.Sprintf("the key returned by EncodeLPMKey(%s,%d) changed when the caller reused its buffer", hx(d[:n]), l))
+				}
+			}
+		}
 		data, pl := lpm.DecodeLPMKey(key)
 		ok := pl == l && len(data) == int((l+7)/8)
 		for i := 0; ok && i < len(data)*8; i++ {
